@@ -58,3 +58,39 @@ harness! { fn fse_enc_next_position_equals_decoder() {
     assert!(q == crate::fse::verif_kani::dec_next_position(p, size), "encoder and decoder spreading steps differ");
     nd_cover!(acc == 9, "largest");
 } }
+
+// ------------------------------------------------------------------------------------------------ C12: whole tiny tables
+// The REAL table builders of both sides on the same distribution, at a scaled-down accuracy log (the builders are generic
+// in it; the format's minimum of 5 is enforced elsewhere): for every state of the decoder's table the encoder's table has
+// a state of that symbol with the same index, bit count and baseline, and "less than 1" symbols occupy the last cells,
+// the first such symbol the very last one (RFC 8878 4.1.1).  Distributions over 3 symbols are case-split.
+fn tiny_tables<const ACC: u8, const P0: i32, const P1: i32, const P2: i32>() {
+    let probs = [P0, P1, P2];
+    let enc = build_table_from_probabilities(&probs, ACC);
+    let mut dec = crate::fse::FSETable::new(255);
+    match dec.build_from_probabilities(ACC, &probs) { Ok(()) => {}, Err(e) => { core::mem::forget(e); panic!("decoder refuses a valid distribution"); } }
+    let size = 1usize << ACC;
+    assert!(enc.table_size == size && dec.decode.len() == size);
+    let idx: usize = nd::any();
+    nd::assume(idx < size);
+    let d = dec.decode[idx];
+    let es = &enc.states[d.symbol as usize].states;
+    let mut found = false;
+    let mut k = 0;
+    while k < es.len() {
+        if es[k].index == idx {
+            found = true;
+            assert!(es[k].baseline == d.base_line as usize && es[k].num_bits == d.num_bits, "encoder and decoder disagree on bit count or baseline of a state");
+        }
+        k += 1;
+    }
+    assert!(found, "encoder and decoder place a symbol in different cells");
+    // RFC: less-than-1 symbols from the end of the table backwards, in symbol order
+    let mut neg = 0; let mut s = 0;
+    while s < 3 { if probs[s] == -1 { neg += 1; assert!(dec.decode[size - neg].symbol == s as u8, "less-than-1 symbols are not placed from the last cell backwards"); } s += 1; }
+    nd_cover!(true, "tables built");
+    core::mem::forget(enc); core::mem::forget(dec);
+}
+harness! { fn fse_tiny_tables_two_lessthan1() { tiny_tables::<2, -1, -1, 2>(); } }
+harness! { fn fse_tiny_tables_lessthan1_first_and_last() { tiny_tables::<3, -1, 6, -1>(); } }
+harness! { fn fse_tiny_tables_non_power_of_two() { tiny_tables::<3, 3, 5, 0>(); } }
